@@ -6,7 +6,8 @@ import RuxModel.Model.URLBuild
   driver engine `route`: registration + lookup + dispatch status of the route table model.
 
     new <mask> <cap> <intercept>     mask: 1 strict, 2 fallback, 4 notAllowed, 8 caching,
-                                           16 custom NotFound, 32 custom NotAllowed
+                                           16 custom NotFound, 32 custom NotAllowed, 256 / 512: NotFound() /
+                                           NotAllowed() called with an EMPTY list afterwards (the defaults again)
     reg <id> <methods|-> <path> <nil>  -> ok <stored path> ;; <tier> <start> <first> <regex> <names>
                                         | reject | unsupported
     q <method> <path>                -> route <id> <params> | allowed <methods> | none
@@ -108,7 +109,7 @@ def routeStep (st : RouteSt) : List String → RouteSt × String
       -- the harness passes the capacity to rux only together with the caching switch (CachingWithNum)
       let o : Opts := { strict := bit m 1, fallback := bit m 2, notAllowed := bit m 4, caching := bit m 8,
                         cap := if bit m 8 then c else 1000, intercept := Bytes.trimSpace ic }
-      ({ rt := RouterM.new o, customNF := bit m 16, customNA := bit m 32, tainted := false, runeSens := false }, "ok")
+      ({ rt := RouterM.new o, customNF := bit m 16 && !bit m 256, customNA := bit m 32 && !bit m 512, tainted := false, runeSens := false }, "ok")
     | _, _, _ => (st, "bad-op")
   | ["reg", id, ms, path, nilh] =>
     if st.tainted then (st, "unsupported") else
